@@ -353,4 +353,15 @@ Proof.
   intros [f0 H0] Hn. rewrite <- (denote_mono f e s Hn (max f f0)) by lia. apply H0. lia.
 Qed.
 
+Lemma parses_fails_false e s t r : parses e s t r -> fails e s -> False.
+Proof.
+  intros [f1 H1] [f2 H2]. specialize (H1 (max f1 f2) (Nat.le_max_l _ _)). specialize (H2 (max f1 f2) (Nat.le_max_r _ _)). congruence.
+Qed.
+
+(** a successful run at some fuel is a [parses] fact *)
+Lemma parses_of_denote f e s t r : denote f e s = Ok (t, r) -> parses e s t r.
+Proof.
+  intros H. exists f. intros f' Hf. rewrite (denote_mono f e s) by (rewrite ?H; try discriminate; exact Hf). exact H.
+Qed.
+
 End L.
